@@ -155,4 +155,68 @@ theorem gen_feed_pinned :
     Gen.scanPoints = ["nodeID, points"] ∧ Gen.scanEdgePoints = ["chunks[2], chunks[3], points"] := by
   decide
 
+/-- non-vacuity of `c08_foreign_delivered` / `c08_own_filtered` / `c08_fold_rows_equal`: a reachable store R → a → b with a
+    client on `a`; a batch written to `b` by someone else, a batch the client wrote itself, and a history of deliveries in
+    time order with distinct time stamps per identity -/
+example :
+    let isEven : Nat → Bool := fun v => v != 4607182418800017408
+    let nt : Int → Point := fun t => { type := nodeTypeT, text := [100], time := t }
+    let st := run {} [
+      .ep [82] [] [{ type := tombstoneT, time := 1 }, nt 1],
+      .ep [97] [82] [{ type := tombstoneT, time := 2 }, nt 2],
+      .ep [98] [97] [{ type := tombstoneT, time := 3 }, nt 3]]
+    let foreign : List Point := [{ type := [118], time := 5, value := 1, origin := [120] }]
+    let own : List Point := [{ type := [118], time := 6, value := 2, origin := [97] }]
+    let bs : List (List Point) := [[{ type := [118], time := 3, value := 1 }], [{ type := [118], key := [48], time := 5, value := 2 }, { type := [100], time := 4 }]]
+    Inv st ∧ Reach (keysOf (liveEdges isEven st)) [98] [97] ∧ Foreign [97] foreign ∧ own ≠ [] ∧ Own [97] [98] own ∧
+      Mono ([] ++ delivered bs) ∧ Admissible ([] ++ delivered bs) := by
+  intro isEven nt st foreign own bs
+  have hinv : Inv st := c03_reachable _
+  refine ⟨hinv, (c06_node_complete_and_tight isEven st hinv [98] [97]).mp (by decide +kernel), ?_, by decide, ?_, ?_, ?_⟩
+  · intro p hp
+    simp only [foreign, List.mem_singleton] at hp
+    rw [hp]; decide
+  · intro p hp
+    simp only [own, List.mem_singleton] at hp
+    rw [hp]; exact Or.inr rfl
+  · have e : ([] : List Point) ++ delivered bs = [{ type := [118], key := zeroKey, time := 3, value := 1 }, { type := [118], key := [48], time := 5, value := 2 }, { type := [100], key := zeroKey, time := 4 }] := by decide +kernel
+    rw [e]
+    intro a p b q c hsplit hs
+    -- three elements: enumerate the positions of p and q
+    rcases a with _ | ⟨a0, a⟩
+    · simp only [List.nil_append, List.cons_append, List.cons.injEq] at hsplit
+      obtain ⟨rfl, hrest⟩ := hsplit
+      rcases b with _ | ⟨b0, b⟩
+      · simp only [List.nil_append, List.cons.injEq] at hrest
+        obtain ⟨rfl, _⟩ := hrest
+        decide
+      · simp only [List.cons_append, List.cons.injEq] at hrest
+        obtain ⟨_, hrest⟩ := hrest
+        rcases b with _ | ⟨b1, b⟩
+        · simp only [List.nil_append, List.cons.injEq] at hrest
+          obtain ⟨rfl, _⟩ := hrest
+          revert hs; decide
+        · simp at hrest
+    · simp only [List.cons_append, List.cons.injEq] at hsplit
+      obtain ⟨_, hsplit⟩ := hsplit
+      rcases a with _ | ⟨a1, a⟩
+      · simp only [List.nil_append, List.cons_append, List.cons.injEq] at hsplit
+        obtain ⟨rfl, hrest⟩ := hsplit
+        rcases b with _ | ⟨b0, b⟩
+        · simp only [List.nil_append, List.cons.injEq] at hrest
+          obtain ⟨rfl, _⟩ := hrest
+          revert hs; decide
+        · simp at hrest
+      · simp only [List.cons_append, List.cons.injEq] at hsplit
+        obtain ⟨_, hsplit⟩ := hsplit
+        rcases a with _ | ⟨a2, a⟩
+        · simp only [List.nil_append, List.cons_append, List.cons.injEq] at hsplit
+          obtain ⟨_, hrest⟩ := hsplit
+          rcases b with _ | ⟨b0, b⟩ <;> simp at hrest
+        · simp at hsplit
+  · have e : ([] : List Point) ++ delivered bs = [{ type := [118], key := zeroKey, time := 3, value := 1 }, { type := [118], key := [48], time := 5, value := 2 }, { type := [100], key := zeroKey, time := 4 }] := by decide +kernel
+    rw [e]
+    unfold Admissible
+    decide
+
 end Siot.Feed
